@@ -468,6 +468,48 @@ def rule_d(ctx: Context, R: Reporter):
     R.floor("C14.d", "per-cluster extraction sites", n, 1)
 
 
+# ------------------------------------------------------------------ C14.f
+def rule_f(ctx: Context, R: Reporter):
+    """The labels handed to a mode-statistics factory are the shared clusterer's
+    predictions for exactly the rows handed over with them (same array, same
+    call): `mode k` is then fitted from the particles that predict() assigns to
+    k, which is how the mutation step will address it."""
+    cl, wiring, users = shared_clusterer(ctx)
+    mc = mode_class(ctx)
+    facs = [m for m in mc.methods.values() if m.is_classmethod and "labels" in m.params]
+    n = 0
+    for (sc, attr) in users:
+        for m in sc.methods.values():
+            fl = flow_of(m.node)
+            for nd in fl.cfg.stmt_nodes():
+                for c in calls_in_node(nd):
+                    tg = [t for t in ctx.res.call_targets(m, c) if isinstance(t, FuncInfo)]
+                    fac = next((t for t in tg if t in facs), None)
+                    if fac is None:
+                        continue
+                    ps = [p for p in fac.params if p not in ("cls", "self")]
+                    lab = call_arg(c, ps.index("labels"), "labels")
+                    rows = call_arg(c, 0, ps[0])
+                    n += 1
+                    ok = False
+                    why = "labels argument not resolvable"
+                    if isinstance(lab, ast.Name) and isinstance(rows, ast.Name):
+                        ds = fl.reaching(nd, lab.id)
+                        why = f"`{lab.id}` has {len(ds)} reaching definitions"
+                        if len(ds) == 1 and ds[0].kind == "assign" and ds[0].value is not None and not ds[0].path:
+                            v = ds[0].value
+                            why = f"`{lab.id} = {unparse(v)[:50]}`"
+                            if isinstance(v, ast.Call) and isinstance(v.func, ast.Attribute) and v.func.attr == "predict" and cl in [t for t in ctx.res.expr_types(m, v.func.value) if isinstance(t, ClassInfo)]:
+                                a0 = v.args[0] if v.args else None
+                                same = isinstance(a0, ast.Name) and a0.id == rows.id and {id(d) for d in fl.reaching(ds[0].node, a0.id)} == {id(d) for d in fl.reaching(nd, rows.id)}
+                                ok = same
+                                why = "" if same else f"predict() is given `{unparse(a0) if a0 is not None else '?'}`, the factory `{rows.id}`"
+                    R.check("C14.f", f"{m.short}: factory labels are predict() of the shared clusterer on the rows passed with them", ok, m, c,
+                            msg=f"{m.short}: `{unparse(c)[:60]}`: {why}; labels that are not predict(u) of the fitted clusterer (e.g. the training labels of fit(), which "
+                                f"need not agree with predict()) make mode k describe particles that mutation will not assign to k", key=f"factory-labels:{m.short}")
+    R.floor("C14.f", "factory calls with a labels argument in the clusterer's users", n, 1)
+
+
 # ------------------------------------------------------------------ C14.e
 def rule_e(ctx: Context, R: Reporter):
     from ..util import conds_holding_at, is_none_test
@@ -538,6 +580,7 @@ def run(ctx: Context, R: Reporter):
     R.guard(rule_c, ctx, R)
     R.guard(rule_d, ctx, R)
     R.guard(rule_e, ctx, R)
+    R.guard(rule_f, ctx, R)
 
 
 def variants():
